@@ -148,6 +148,14 @@ class MZip:
         self.parts = parts
 
 
+class MRatio:
+    """int / int (true division) with a positive denominator: kept exact as a ratio; only order comparisons with an
+    integer are modelled (n < num/den  <=>  n*den < num)"""
+    def __init__(self, num, den):
+        self.num = num
+        self.den = den
+
+
 class MIter:
     """iterator over a statically-sized list: immutable (items, pos); `next(name, default)` REBINDS the name to the
     advanced iterator (states stay independent after a fork)"""
